@@ -149,7 +149,7 @@ fn configs(prop: &str, thorough: bool) -> Vec<(Cfg, Option<usize>)> {
                 c.inc_amounts = vec![1, 2];
                 c.dec_amounts = vec![0, 1];
                 c.inc_exps = vec![ExpA::Unset, ExpA::H(H0 + 1)];
-                c.dec_exps = if thorough { vec![ExpA::Unset, ExpA::Never, ExpA::H(H0 + 2)] } else { vec![ExpA::Unset, ExpA::Never] };
+                c.dec_exps = vec![ExpA::Unset, ExpA::Never];
                 c.migrate_probe = true;
                 c.perm_callers = vec![A1, X];
                 c.perm_targets = if thorough {
